@@ -29,7 +29,8 @@ RULE = ("configuration pool: generated structures (peptides with all residue typ
         "new processes. history cases: 3-6 configurations, fresh references, then an in-process history of 8-24 runs "
         "containing A-B-A and A-fail-A. Non-trivial: a repeated configuration after at least one different (or "
         "failed) run; distinct = (configuration id, what ran immediately before it)"
-        ' Round-2 additions: multi-model PDB and (multi-model) mmCIF encodings; the APBS input written by --apbs-input is part of the compared bytes; some histories hold two APBS-writing configurations.')
+        ' Round-2 additions: multi-model PDB and (multi-model) mmCIF encodings; the APBS input written by --apbs-input is part of the compared bytes; some histories hold two APBS-writing configurations.'
+        ' Round-3/4 additions: chain-topology stressors with --keep-chain; loosely formatted bookkeeping records (MODEL / TER / CRYST1 the record parsers reject) followed by multi-model inputs; mmCIF layouts.')
 ASSUMPTIONS = ["bytes of the PQR file are the observable; log output is not compared",
                "module-state fingerprint covers dict/list/set/tuple/scalar attributes of pdb2pqr modules and classes "
                "and function defaults to depth 4; logging filters' display counters are excluded"]
